@@ -525,7 +525,11 @@ fn oracle_observer(_r: &Req, out: &str) -> Result<(), String> {
 }
 
 /// the second `solve()` on the same object: observer self-check, plus the property "the same
-/// solver solved twice gives the same answer" (C05) stated on the implementation's own two runs
+/// solver solved twice gives the same answer" (C05) stated on the implementation's own two runs.
+/// No exemption is left (`C05.full_solve_idempotent_any_start`: every mutable buffer of the solver
+/// object is dead — `workx` / `Px` since /repo 1706c1f, the iterate after a failed initial KKT solve
+/// since /repo 7c1c881): whatever the status and the figures of the first solve (NumericalError, NaN
+/// iterate, MaxIterations at the starting point …), the second one reproduces it bit for bit.
 fn oracle_twice(r: &Req, out: &str) -> Result<(), String> {
     oracle_observer(r, out)?;
     if out.starts_with("panic") || out.starts_with("err") {
@@ -533,27 +537,20 @@ fn oracle_twice(r: &Req, out: &str) -> Result<(), String> {
     }
     let o = Req::parse(&format!("o {}", out)).ok_or("unparsable response")?;
     let (st1, st2) = (o.u("status1"), o.u("status"));
-    let finite = |k: &str| o.fs(k).iter().all(|v| v.is_finite());
-    let all_finite = ["x", "s", "z", "x1", "s1", "z1"].iter().all(|k| finite(k));
-    // a first solve that ended in an error status (NumericalError / InsufficientProgress) or
-    // with non-finite figures leaves an iterate behind that the second `default_start` may keep
-    // (its KKT solve is not checked); the property is claimed for solves that reached a verdict
-    let verdict = matches!(st1, 1..=8);
-    if !(verdict && all_finite) {
-        return Ok(());
-    }
     if st1 != st2 {
         return Err(format!("second solve on the same solver ends with status {} (first: {})", st2, st1));
     }
     if o.u("iterations1") != o.u("iterations") {
         return Err(format!("second solve takes {} iterations (first: {})", o.u("iterations"), o.u("iterations1")));
     }
-    // values: equal as numbers (a signed zero may differ: `y = a*x + 0*y` keeps the sign of a stale zero)
+    // bit for bit (signed zeros included; NaN = NaN)
     for (a, b) in [("x1", "x"), ("s1", "s"), ("z1", "z")] {
-        let (u, v) = (o.fs(a), o.fs(b));
-        if u.len() != v.len() || u.iter().zip(v.iter()).any(|(p, q)| p != q) {
+        if !bits_eq(&o.fs(a), &o.fs(b)) {
             return Err(format!("second solve on the same solver returns a different {}", b));
         }
+    }
+    if o.u("same") != 1 {
+        return Err("second solve on the same solver returns different objective / residual figures".into());
     }
     Ok(())
 }
@@ -825,7 +822,37 @@ fn submit_all(s: &mut Session, p: &Prob, st: &Sets, stages: bool) {
     }
 }
 
+/// inputs of earlier findings: the `input` line of every replay record in `corpus/SOLVER/*.json`
+/// (cwd = /verif under `./check`; `VERIF_CORPUS` overrides), in file-name order
+fn corpus_lines() -> Vec<(String, String)> {
+    let dir = std::env::var("VERIF_CORPUS").unwrap_or_else(|_| {
+        if std::path::Path::new("corpus/SOLVER").is_dir() { "corpus/SOLVER".into() } else { "/verif/corpus/SOLVER".into() }
+    });
+    let mut files: Vec<std::path::PathBuf> = match std::fs::read_dir(&dir) {
+        Ok(rd) => rd.filter_map(|e| e.ok()).map(|e| e.path()).filter(|p| p.extension().map_or(false, |x| x == "json")).collect(),
+        Err(_) => vec![],
+    };
+    files.sort();
+    let mut out = vec![];
+    for f in files {
+        let Ok(text) = std::fs::read_to_string(&f) else { continue };
+        let Ok(v) = serde_json::from_str::<serde_json::Value>(&text) else { continue };
+        if let Some(line) = v.get("input").and_then(|x| x.as_str()) {
+            if line.starts_with("solve.") {
+                let name = f.file_stem().map(|x| x.to_string_lossy().to_string()).unwrap_or_default();
+                out.push((name, line.to_string()));
+            }
+        }
+    }
+    out
+}
+
 fn generate(s: &mut Session) {
+    // stage 0: the corpus (runs first, no draw from the random stream)
+    for (name, line) in corpus_lines() {
+        s.count(&format!("corpus:{}", name.trim_end_matches(|c: char| c == '-' || c.is_ascii_digit())));
+        s.submit(line);
+    }
     let mut rng = s.rng.fork();
     let nmax = if s.thorough() { 24 } else { 10 };
     let mmax = if s.thorough() { 40 } else { 16 };
@@ -965,7 +992,7 @@ fn channels() -> Vec<Channel> {
             oracle: Some(oracle_twice),
             modelled: true,
             rust_fn: "DefaultSolver::new + IPSolver::solve twice on the same object (second trajectory, observer) + DefaultSolution",
-            lean: "Solver.Solver.solve ∘ Solver.Solver.solve / C05.full_solve_info_irrelevant, C05.full_solve_keeps_data, C03.full_solution_lengths",
+            lean: "Solver.Solver.solve ∘ Solver.Solver.solve / C05.full_solve_idempotent_any_start, C05.full_solve_ignores_iterate, C05.full_solve_info_irrelevant, C05.full_solve_keeps_data, C03.full_solution_lengths",
         },
     ]
 }
